@@ -1,5 +1,6 @@
 import AgModel.Gen.Consts
 import AgModel.Proofs.Votor
+import AgModel.Proofs.VotorExt
 /-!
 # C05 — a correct node's own votes obey the voting rules under every event order
 
@@ -220,6 +221,24 @@ theorem own_votes_never_slashable (es : List Event) (o1 o2 : Out)
     by_cases hs : s = s'
     · subst hs; exact absurd h2 ((nofin s h1).2.2 h)
     · simp [hs]
+
+/-- **Pruning never resurrects a slot; votes are only cast for retained slots.** Everything logged
+    after the point where slot `s` fell below the retained window (`s < firstUnpruned`, the start of
+    the window of the highest final certificate seen) contains no vote for `s`, whatever events
+    follow. -/
+theorem pruned_slot_never_votes (es es' : List Event) (s : Nat) (hs : s < (run init es).firstUnpruned) :
+    ∃ xs, log (es ++ es') = xs ++ log es ∧ ∀ x ∈ xs, x.voteSlot ≠ some s := by
+  obtain ⟨_, xs, hl, hq⟩ := Ext.run es' (run init es)
+  refine ⟨xs, by unfold log; rw [run_append]; exact hl, ?_⟩
+  intro x hx hv
+  have := hq x hx s hv
+  omega
+
+/-- the retained window only moves forward -/
+theorem first_unpruned_monotone (es es' : List Event) :
+    (run init es).firstUnpruned ≤ (run init (es ++ es')).firstUnpruned := by
+  rw [run_append]
+  exact firstInWindow_mono' (Ext.run es' (run init es)).1
 
 /-! ## non-vacuity: concrete histories in which the votes of the theorems are really cast -/
 
